@@ -74,6 +74,10 @@ var holePrograms = []tplSeg{
 	{Hole: "`n{x}m`"}, {Hole: "'}'"}, {Hole: "func g(){5}; g()"},
 	{Hole: "i=0; while i<1 { i=i+1; `q{ if 1 {break} }` }", NoVal: true}, {Hole: "i=0; while i<2 { i=i+1; `{% continue %}r` }", NoVal: true}, {Hole: "while 1 { `s{break}` }", NoVal: true},
 	{Hole: "i=0; while i<2 { i=i+1; if i { `{% if 1 { continue } %}` } }; i"},
+	// containers: the same array / dict OBJECT shown by several parts of one template, directly and inside another container
+	// (ya / yd are never mutated by another hole: a part is rendered when the template is assembled, so a container changed by a
+	// later hole legitimately shows its final state)
+	{Hole: "ya"}, {Hole: "yd"}, {Hole: "[ya, 3]"}, {Hole: "q = [7, 8]"}, {Hole: "q"},
 	// blocks whose statements all leave no value (index / attribute / slice assignment): they contribute the empty string
 	{Hole: "xa[0] = 5", NoVal: true}, {Hole: "xd.k = 2", NoVal: true}, {Hole: "xa[0:1] = [7]", NoVal: true}, {Hole: "&xc.k = 3", NoVal: true}, {Hole: "xa[0] = 5; xd.k = 2", NoVal: true}, {Hole: "if x { xa[1] = 4 }", NoVal: true},
 }
@@ -186,7 +190,7 @@ func c13Enumerate(tier string, seed int64, emit func(string, any)) {
 	}
 }
 
-const c13Prelude = "x = 2; y = 's'; xa = [1,2]; xd = {'k':1}; &xc = 1"
+const c13Prelude = "x = 2; y = 's'; xa = [1,2]; xd = {'k':1}; &xc = 1; ya = [1,2]; yd = {'k':[1]}"
 
 func c13Run(raw json.RawMessage) harn.Result {
 	var c c13Case
@@ -203,8 +207,10 @@ func c13Run(raw json.RawMessage) harn.Result {
 		res.Violations = append(res.Violations, harn.Violation{Signature: sig, What: fmt.Sprintf("source %q: %s", c.Src, what)})
 	}
 	vm := drv.NewVM(drv.AllOn())
-	if err := vm.Run(c13Prelude); err != nil {
-		panic(err)
+	if c.Kind != "literal" { // a literal refers to no variable
+		if err := vm.Run(c13Prelude); err != nil {
+			panic(err)
+		}
 	}
 	var err error
 	if site, p := harn.Guard(func() { err = vm.Run(c.Src) }); p {
@@ -273,7 +279,7 @@ func c13Run(raw json.RawMessage) harn.Result {
 func init() {
 	harn.Register(&harn.Check{
 		ID:   "C13",
-		Rule: "literals: every text of <= 4 (thorough 5) symbols over {a ' \" ` \\ { } % LF CR TAB CJK 0x1E space} x 4 delimiter styles, spelled with the documented escapes (raw and escaped control characters), plus size ladders; must evaluate to exactly the text with empty rest. templates: every template of <= 2 (thorough 3) segments (6 literal texts, 25 hole programs x 2 hole styles incl. assignments, blocks, nested template, function definition) x both template delimiters, 3-segment shapes, nesting ladders 1..24; result must equal the concatenation of literal texts and the string form of each hole's value obtained by evaluating the hole program alone, in order, on a second VM in the same state; variables must match too. Distinct by source text; out-of-domain (text, delimiter) pairs are counted separately and are not cases.",
+		Rule: "literals: every text of <= 4 (thorough 5) symbols over {a ' \" ` \\ { } % LF CR TAB CJK 0x1E space} x 4 delimiter styles, spelled with the documented escapes (raw and escaped control characters), plus size ladders; must evaluate to exactly the text with empty rest. templates: every template of <= 2 (thorough 3) segments (6 literal texts, 36 hole programs x 2 hole styles incl. assignments, blocks, loops with break / continue in nested templates, value-less index / attribute / slice assignments, nested template, function definition, the same container object shown by several parts) x both template delimiters, 3-segment shapes, nesting ladders 1..24; result must equal the concatenation of literal texts and the string form of each hole's value obtained by evaluating the hole program alone, in order, on a second VM in the same state; variables must match too. Distinct by source text; out-of-domain (text, delimiter) pairs are counted separately and are not cases.",
 		Enumerate: c13Enumerate,
 		Run:       c13Run,
 		Budget:    map[string]time.Duration{"quick": 150 * time.Second, "thorough": 40 * time.Minute},
